@@ -126,6 +126,7 @@ func (c *Ctx) initFactEngine() {
 	paramNonNegCache = map[*ssa.Parameter]int{}
 	entryFactCache = map[*ssa.Function][]Lin{}
 	phiRangeCache = map[*ssa.Phi]*constRange{}
+	fieldRangeCache = map[string]*constRange{}
 	resultFactCache = map[resKey][]func(fi *funcInfo, a string, call *ssa.Call) Lin{}
 	prog = c.prog
 	cg = c.callgraph()
